@@ -2,7 +2,7 @@
 import engine
 
 OPS = ["mul_naive", "addmul_naive", "mul_va", "mul_m4rm", "addmul_m4rm", "mul", "addmul", "djb"]
-PROOFS = []
+PROOFS = ["Properties_C01a"]
 
 
 def run(res, tier, seed):
@@ -10,6 +10,7 @@ def run(res, tier, seed):
                        "k in 0..10,16, cutoffs 0..2048, supplied/allocated destination, squaring route; distinct by "
                        "(route, shape class, content kinds, parameter)")
     engine.proof_part(res, PROOFS)
+    engine.corpus(res, "C01")
     n = 60 if tier == "quick" else 500
     engine.run_ops(res, "C01", OPS, seed, n, 150 if tier == "quick" else 400)
 
